@@ -304,6 +304,7 @@ func c14() int {
 		}
 	})
 	httpCases, httpSent := c14HTTP(rep)
+	httpCases += int64(c14FreshLedger(rep))
 	transitions += httpSent
 	states += httpCases
 	cov := evid.Coverage{
@@ -316,6 +317,9 @@ func c14() int {
 		"rule":                          fmt.Sprintf("states = histories (operation sequences of length <= %d over %d write kinds + restart) explored from the empty ledger; for each, a preview of every write kind (with and without idempotency key) is inserted at every position and three engines are run: with preview, without, and with the write made for real; transitions = engine operations executed; every trace runs the real Commander over memstore", maxLen, len(ops)),
 	}
 	rep.Assume = []string{"dates and hashes are erased before comparing twins; the hash chain is re-verified instead"}
+	// the engine on the real store, against the stand-in the enumeration above ran on (realstore.go)
+	rsH, rsS := realStoreConformance(rep, "")
+	cov["realstore_histories"], cov["realstore_steps"] = rsH, rsS
 	return rep.Finish(cov)
 }
 
